@@ -223,7 +223,8 @@ type caseT struct {
 	ViaApp    bool     `json:",omitempty"` // partial mode through app.Context on a PATCH request
 	// AppVia: how the handler asks for partial validation: 0 Bind(WithPartial()); 1 BindOnly then
 	// Validate(validation.WithPartial(true)); 2 Bind(WithValidationOptions(validation.WithPartial(true)));
-	// 3 Bind(WithPartial(), WithPresence(pm)) with the presence map computed by the handler
+	// 3 Bind(WithPartial(), WithPresence(pm)) with the presence map computed by the handler;
+	// 4 the body is first bound into a map with BindOnly (body and presence are cached for the request), then Bind(WithPartial())
 	AppVia int `json:",omitempty"`
 	// Variant: 1 = the options are given to validation.New (base configuration of a fresh Validator), the call
 	// passes none of them; 2 = as 1, and the call overrides a different base WithMaxErrors;
@@ -568,7 +569,7 @@ func genCase(r *hx.Rand, tier string) caseT {
 	c.Pkg = r.Chance(1, 4)
 	c.ViaApp = c.Mode == 0 && r.Chance(1, 4)
 	if c.ViaApp {
-		c.AppVia = r.Intn(4)
+		c.AppVia = r.Intn(5)
 	}
 	if !c.ViaApp && r.Chance(1, 6) {
 		c.Variant = r.Range(1, 3)
@@ -1068,6 +1069,10 @@ func observe(c *caseT, rt reflect.Type, secrets []string) (o obsT) {
 					verr = ac.Bind(ptr.Interface(), app.WithValidationOptions(append([]validation.Option{validation.WithPartial(true)}, opts...)...))
 				case 3:
 					verr = ac.Bind(ptr.Interface(), app.WithPartial(), app.WithPresence(pm), app.WithValidationOptions(opts...))
+				case 4:
+					var first map[string]any
+					_ = ac.BindOnly(&first)
+					verr = ac.Bind(ptr.Interface(), app.WithPartial(), app.WithValidationOptions(opts...))
 				default:
 					verr = ac.Bind(ptr.Interface(), app.WithPartial(), app.WithValidationOptions(opts...))
 				}
@@ -1393,7 +1398,7 @@ func emit(id string, c caseT, st *hx.Stats) string {
 		st.Count("mode_" + []string{"partial", "full", "runall", "interface"}[c.Mode])
 		st.Count("obs_" + o.kind)
 		if c.ViaApp {
-			st.Count("via_app_context_" + []string{"bind_withpartial", "bindonly_then_validate", "bind_validationoption_partial", "bind_withpresence"}[c.AppVia])
+			st.Count("via_app_context_" + []string{"bind_withpartial", "bindonly_then_validate", "bind_validationoption_partial", "bind_withpresence", "second_bind_in_request"}[c.AppVia])
 		}
 		if c.Variant != 0 {
 			st.Count("variant_" + []string{"", "base_options", "base_options_overridden", "validate_with_partial_option"}[c.Variant])
